@@ -371,6 +371,71 @@ let () = register "history" (fun args ->
     go [] [] ops obs 0 in
   (model, oracle))
 
+(* ---- stack directories across the two implementations: C15 ---- *)
+let run_model_history (spec : string) =
+  let f = S.split_on_char '|' spec in
+  let cfg = parse_cfg (L.nth f 0) in
+  let name_check = L.nth f 1 = "1" in
+  let ops = L.map parse_hop (split_on '!' (L.nth f 2)) in
+  let st = ref [] in
+  let statuses = L.map (fun op ->
+      let (st', status) = match op with
+        | HAdd (auto, refs, logs) -> StackSeq.stack_add deflate inflate cfg name_check auto refs logs !st
+        | HMulti txs -> StackSeq.stack_addition deflate inflate cfg name_check txs !st
+        | HCompact (a, b) -> StackSeq.stack_compact deflate inflate cfg (nat_of_int a) (nat_of_int b) None !st
+        | HCompactAll -> StackSeq.stack_compact_all deflate inflate cfg None !st
+        | HExpire e -> StackSeq.stack_compact_all deflate inflate cfg (Some e) !st in
+      st := st'; status) ops in
+  (!st, statuses)
+
+(* Go wrote the directory, C read it: impl = <last Go observation>#<C: ok|refs|logs> *)
+let () = register "cstack_gc" (fun args ->
+  let (st, statuses) = run_model_history (L.nth args 0) in
+  let last = match L.rev statuses with s :: _ -> s | [] -> StackSeq.SOk in
+  let ts = L.map fst st in
+  let refs = show_refs (Compact.stack_refs ts) and logs = show_logs (Compact.stack_logs ts) in
+  let model = show_state st last ^ "#ok|" ^ refs ^ "|" ^ logs in
+  let oracle =
+    if L.length args < 2 then "-" else
+    match S.split_on_char '#' (L.nth args 1) with
+    | [goobs; cview] ->
+      (match S.split_on_char '^' goobs, S.split_on_char '|' cview with
+       | [_; _; grefs; glogs], ["ok"; crefs; clogs] ->
+         if crefs <> grefs then "bad:C reads other refs than Go from the directory Go wrote"
+         else if clogs <> glogs then "bad:C reads other logs than Go from the directory Go wrote"
+         else "ok"
+       | _, _ -> "bad:C could not read the directory Go wrote")
+    | _ -> "bad:format" in
+  (model, oracle))
+
+(* C wrote the directory, Go read it: impl = <C statuses>#<Go observation>; the table layout
+   is the C code's own business (its auto-compaction), the view is not *)
+let () = register "cstack_cg" (fun args ->
+  let (st, statuses) = run_model_history (L.nth args 0) in
+  let ts = L.map fst st in
+  let refs = show_refs (Compact.stack_refs ts) and logs = show_logs (Compact.stack_logs ts) in
+  let mstat = S.concat "," (L.map (fun s -> if s = StackSeq.SOk then "ok" else "err") statuses) in
+  let impl = if L.length args < 2 then "" else L.nth args 1 in
+  let tabs = match S.split_on_char '#' impl with
+    | [_; goobs] -> (match S.split_on_char '^' goobs with [_; t; _; _] -> t | _ -> "")
+    | _ -> "" in
+  let model = mstat ^ "#ok^" ^ tabs ^ "^" ^ refs ^ "^" ^ logs in
+  let oracle =
+    if L.length args < 2 then "-" else
+    if model = impl then "ok"
+    else if L.exists (fun s -> s <> StackSeq.SOk) statuses then "-"     (* the model writer refused a transaction: nothing to demand *)
+    else match S.split_on_char '#' impl with
+      | [cst; goobs] ->
+        if cst <> mstat then "bad:the C stack refused a transaction (" ^ cst ^ ")"
+        else (match S.split_on_char '^' goobs with
+            | [_; _; grefs; glogs] ->
+              if grefs <> refs then "bad:Go reads other refs from the directory C wrote than were written"
+              else if glogs <> logs then "bad:Go reads other logs from the directory C wrote than were written"
+              else "ok"
+            | _ -> "bad:Go could not read the directory C wrote")
+      | _ -> "bad:format" in
+  (model, oracle))
+
 (* ---- the C twin: C15 ---- *)
 let () = register "ctable" (fun args ->
   let f = S.split_on_char '|' (L.nth args 0) in
